@@ -289,6 +289,22 @@ def _layout_chunk(pairs):
     return out
 
 
+def _shared_table_chunk(pairs):
+    """Two queries one after the other over the SAME list object (an UPDATE, possibly failing half way, then a SELECT): the second must give
+    what it gives alone - the first query must not have left anything behind in the caller's rows."""
+    mods = impl.load()
+    out = []
+    for pid, u, sel in pairs:
+        A = engine.table_py(u['A'])
+        q1 = engine.render_query(u, engine.Plain(), 'py')
+        engine.run_case_py(mods, u, q1, shared_A=A)
+        q2 = engine.render_query(sel, engine.Plain(), 'py')
+        obs = engine.run_case_py(mods, sel, q2, shared_A=A)
+        sigs = [dict(sig, what='after an UPDATE over the same table object: ' + sig['what'], first_query=q1) for sig in engine.judge(sel, obs, q2)]
+        out.append((pid, sigs))
+    return out
+
+
 FRESH = r'''
 import sys, json
 sys.path.insert(0, %r)
@@ -354,6 +370,25 @@ def check(run):
         run.count(['history', [ec.case_key(c) for c in h]], nontrivial=any(c['expect']['err'] for c in h[:-1]))
         for sig in sigs:
             run.violation(sig, {'kind': 'history', 'cases': h})
+    # an UPDATE, then a SELECT, over the same table object
+    byA = {}
+    for c in hc:
+        byA.setdefault(json.dumps(c['A']), []).append(c)
+    spairs = []
+    for group in byA.values():
+        ups = [c for c in group if c['q']['kind'] == 'update' and c['breakAt'] == 0][:3]
+        sels = [c for c in group if c['q']['kind'] == 'select' and c['breakAt'] == 0 and len(c['A']) >= 1][:4]
+        for u in ups:
+            for sl in sels:
+                spairs.append((len(spairs), u, sl))
+    if not spairs:
+        core.machinery_failure('no UPDATE / SELECT pair over a common table in the history pool')
+    for (pid, u, sl), (_, sigs) in zip(spairs, par.pmap(_shared_table_chunk, spairs, chunk=60)):
+        run.traces += 2
+        run.count(['shared-table', ec.case_key(u), ec.case_key(sl)], nontrivial=True, n=2)
+        for sig in sigs:
+            run.violation(sig, {'kind': 'shared_table', 'u': u, 'sel': sl})
+    run.notes['shared_table_pairs'] = len(spairs)
     # the same query text over tables with different column layouts, one after another in one interpreter
     rr = tlcrun.run_tlc('MC_Engine', ec.engine_cfg(os.path.join(d, 'named.cfg'), 'Q_C16named', 'R_2x2', 'R_none', 2, 0, (True,), (0,)), timeout=3600)
     run.add_tlc('MC_Engine:same-text-other-layout', rr)
@@ -394,6 +429,11 @@ def replay(path):
     if c['kind'] == 'schedule':
         for tid, sigs, drift, nev in _replay_schedules([(1, c['c1'], c['c2'], c['sched'])]):
             run.traces += 1
+            for sig in sigs:
+                run.violation(sig, c)
+    elif c['kind'] == 'shared_table':
+        for pid, sigs in _shared_table_chunk([(1, c['u'], c['sel'])]):
+            run.traces += 2
             for sig in sigs:
                 run.violation(sig, c)
     elif c['kind'] == 'layout':
